@@ -13,6 +13,7 @@ import (
 	"runtime"
 	"sync"
 	"sync/atomic"
+	"testing/iotest"
 	"time"
 
 	"gitlab.com/gomidi/midi/v2/smf"
@@ -267,6 +268,7 @@ type WrRec struct {
 	PriorFault int      `json:"priorfault"`
 	File       string   `json:"file"` // WriteFile over an existing LONGER file: "same" (file content = WriteTo bytes), "differs", or the error text
 	Read       R        `json:"read"`
+	Rdr        string   `json:"rdr"` // how the written bytes were read back: memory | onebyte | dataerr
 	Feat       []string `json:"feat"`
 }
 
@@ -316,7 +318,19 @@ func runWr(rec *WrRec) {
 			os.RemoveAll(dir)
 		}
 	}
-	rec.Read, _, _ = readBytes(buf.Bytes())
+	// the read back goes through a reader of the kind the record names: from memory, one byte per call, or the last bytes
+	// together with io.EOF (all legal io.Readers; what is read back must not depend on it)
+	switch rec.ID % 4 {
+	case 1:
+		rec.Rdr = "onebyte"
+		rec.Read, _, _ = readFrom(iotest.OneByteReader(bytes.NewReader(buf.Bytes())))
+	case 2:
+		rec.Rdr = "dataerr"
+		rec.Read, _, _ = readFrom(iotest.DataErrReader(bytes.NewReader(buf.Bytes())))
+	default:
+		rec.Rdr = "memory"
+		rec.Read, _, _ = readBytes(buf.Bytes())
+	}
 }
 
 // RdRec: bytes produced at byte level (never by the library's writer) read by the real reader (C02).
